@@ -64,6 +64,10 @@ def base_op(spec):
     if small:
         op["peer_plan"] = C.peer_plan(rp, 16)
         op["cpu_s"] = 200
+        if stream(spec["seed"], i, "byzantine").random() < 0.5:
+            # a reply-corrupting solver peer in the base run: sequences the checker rejects must stay out of the log,
+            # so that the log of a run with contained failures still replays to the same output
+            op["solver_mutator"] = {"seed": i, "calls": None}
     return op
 
 
@@ -123,6 +127,11 @@ def run_case(op, choose_crash, choose_tampers, summ, oracle_seed, phases=("fidel
     nlog = len(json.loads(log.decode()))
     base_files = {inp: op["files"][inp]}
     summ["probes"]["log_entries"] = summ["probes"].get("log_entries", 0) + nlog
+    if op.get("solver_mutator"):
+        nm = len(res["records"].get("reply_mutations", []))
+        summ["faults"]["reply_corrupted"] = summ["faults"].get("reply_corrupted", 0) + nm
+        nrej = res["stdout"].count("Comparison failed, so initial block is kept")
+        summ["probes"]["base_run_rejected_blocks"] = summ["probes"].get("base_run_rejected_blocks", 0) + nrej
     # (1) fidelity
     if "fidelity" in phases:
         rop = replay_op(op, dict(base_files, **{logp: log}))
